@@ -408,7 +408,9 @@ def pipe_case(rng, malformed=False):
     ts = m[1]
     now = rng.choice([min(1 << 62, ts), min(1 << 62, ts + 1), max(1, min(1 << 62, ts) - 1), 1_700_000_000])
     now = max(1, now)
-    return f"d{feed} " + " ".join(map(str, m)) + f" {now} {args}"
+    # the oracle update may be older than the venue refresh (age within the 60 s default max age of Pyth feeds)
+    age = rng.choice([0, 0, 1, 5, 30])
+    return f"d{feed} " + " ".join(map(str, m)) + f" {now} {args}" + (f" {age}" if age and now > age and feed == "pyth" else "")
 
 
 KNOWN_WITNESS = "kpyth 10 6 0 0 0 0 9 3 10 1000000000000 1000000000000 5 5"
